@@ -24,9 +24,9 @@ class Clock:
     calls: int = 0
 
 
-def fake_time() -> float:
+def fake_time() -> int:
     Clock.calls += 1
-    return float(Clock.now)
+    return Clock.now      # an int: exact at any magnitude (int(time()) is applied by callers)
 
 
 ENTROPY_CAP = 1 << 24
